@@ -972,6 +972,15 @@ pub fn protected_envelope(rng: &mut Rng) -> String {
     out
 }
 
+/// like `rewrap_nonansi_with`, but the port declaration follows the header trivia at once: the ANSI attempt then
+/// fails right behind that trivia, and the non-ANSI attempt re-reads it while few entries have been stored since
+pub fn rewrap_nonansi_early(text: &str, after_header: &str) -> String {
+    if let Some(body) = text.strip_prefix("module m;\n") {
+        return format!("module m(zz_p);\n{}  input zz_p;\n{}", after_header, body);
+    }
+    text.to_string()
+}
+
 /// `pragma with its expression list broken over lines in every way
 pub fn pragma_lines(rng: &mut Rng) -> String {
     if rng.chance(1, 4) {
